@@ -10,6 +10,12 @@ FILE = {"p": relative path, "kind": "text"|"binary"|"fifo", "how": "header"|"dot
         expression parser fails with an internal error (optional)}
 EXPR = ["K", id] | ["AND", e, e] | ["OR", e, e] | ["WITH", id, id]
 NAME = path relative to LICENSES/ (may contain '/', may end in '.license')
+"liclinks" (optional): [LINK...] — which of the names in "lic" are reached through symbolic links instead of being regular files
+        (the names stay what they are: a link that resolves to a regular file is a licence text named by the *link's* name, a
+        link that resolves to a directory is a sub-directory of LICENSES/), and dangling links (no licence text at all):
+LINK = {"n": NAME, "k": "file", "to": "alias"|"project"|"hidden"|"outside"|"chain", "target": NAME (alias), "abs": bool}
+     | {"n": directory below LICENSES/ ('' = LICENSES itself), "k": "dir", "to": "nested"|"dotreuse"|"hidden"|"outside", "abs": bool}
+     | {"n": NAME, "k": "dangling"}
 TOML = {"dir": directory ('' = root), "tables": [{"pats": [PAT...], "prec": "c"|"a"|"o", "cop": int, "exprs": [EXPR...]}...]}
 PARA = {"pats": [PAT...], "cop": int, "expr": EXPR, "raw": text of the License field when it is not an SPDX expression | None,
         "pos": "before"|"after" the one-file paragraphs}
@@ -325,7 +331,81 @@ def toml_file_text(t):
     return "".join(parts)
 
 
-def build_tree(root, case):
+def _rel_link(root, link_path, target_path, absolute):
+    """the text of a symbolic link at root/link_path that points at root/target_path (target_path may begin with '../')"""
+    full = os.path.normpath(os.path.join(root, target_path))
+    if absolute:
+        return full
+    return os.path.relpath(full, os.path.dirname(os.path.join(root, link_path)))
+
+
+def place_licences(root, case, files, outside=None):
+    """Put the licence texts of case["lic"] into `files` (project-relative path -> content; a path beginning with '../' lies
+    next to the project) — regular files below LICENSES/, or, for the names that case["liclinks"] speaks about, the target of
+    a symbolic link.  Returns the links to make: [(project-relative path, link text | None = make this directory)]."""
+    specs = case.get("liclinks", [])
+    flinks = {l["n"]: l for l in specs if l["k"] == "file"}
+    dlinks = sorted((l for l in specs if l["k"] == "dir"), key=lambda l: -len(l["n"]))
+    out_base = os.path.relpath(outside, root) if outside else ".reuse/rv-outside"
+    links = []
+    dir_target = {}
+    # one link to a directory on the way to an entry at most (the generator makes no link below a linked directory)
+    assert not any(a["n"] != b["n"] and (a["n"] == "" or b["n"].startswith(a["n"] + "/")) for a in dlinks for b in dlinks), dlinks
+    for k, l in enumerate(dlinks):
+        to = l["to"]
+        if to == "nested":
+            t = ["vendor/LICENSES", "third_party/x/LICENSES", "src/ext/LICENSES"][k % 3] + ("/d%d" % k if k >= 3 else "")
+        elif to == "dotreuse":
+            t = ".reuse/texts-%d" % k
+        elif to == "hidden" and l["n"]:
+            t = "LICENSES/.pool/d%d" % k
+        else:
+            t = "%s/dir-%d" % (out_base, k)
+        dir_target[l["n"]] = t
+        links.append((t, None))
+        lp = "LICENSES/" + l["n"] if l["n"] else "LICENSES"
+        links.append((lp, _rel_link(root, lp, t, l.get("abs"))))
+
+    def through_dirs(name):
+        """where the entry LICENSES/name really lies, given the links to directories on its way"""
+        for l in dlinks:
+            d = l["n"]
+            if d == "" or name.startswith(d + "/"):
+                return dir_target[d] + "/" + (name[len(d) + 1:] if d else name)
+        return "LICENSES/" + name
+
+    for k, name in enumerate(case["lic"]):
+        text = "licence text of %s\n" % name
+        where = through_dirs(name)
+        l = flinks.get(name)
+        if l is None:
+            files[where] = text
+            continue
+        to = l["to"]
+        if to == "alias":
+            target = through_dirs(l["target"])       # another licence text of the project (it is written in its own turn)
+        elif to == "project":
+            target = ["COPYING-%d", "legal/LICENSE-%d.txt", "LICENSE.%d.md"][k % 3] % k
+        elif to == "hidden":
+            target = through_dirs(".store/text-%d" % k)
+        elif to == "chain":
+            hop, target = through_dirs(".store/hop-%d" % k), "docs/COPYING-%d.txt" % k
+            links.append((hop, _rel_link(root, hop, target, False)))
+            files[target] = text
+            target = hop
+        else:
+            target = "%s/text-%d" % (out_base, k)
+        if to not in ("alias", "chain"):
+            files[target] = text
+        links.append((where, _rel_link(root, where, target, l.get("abs"))))
+    for l in specs:
+        if l["k"] == "dangling":
+            links.append((through_dirs(l["n"]), "no/such/file-%d" % len(links)))
+    return links
+
+
+def build_tree(root, case, outside=None):
+    """outside: a directory next to the project for the targets of links that leave it (None: such targets stay in .reuse/)"""
     files = {}
     fifos = []
     toml_items = []
@@ -382,9 +462,8 @@ def build_tree(root, case):
         files[".reuse/dep5"] = (
             "Format: https://www.debian.org/doc/packaging-manuals/copyright-format/1.0/\nUpstream-Name: demo\n"
             "Upstream-Contact: Jane <jane@example.com>\nSource: https://example.com/demo\n\n" + "\n".join(dep5_items))
-    for name in case["lic"]:
-        files["LICENSES/" + name] = "licence text of %s\n" % name
     links = []
+    links += place_licences(root, case, files, outside)
     ignored = []
     for x in case.get("extra", []):
         k = x["k"]
@@ -408,6 +487,9 @@ def build_tree(root, case):
         os.mkfifo(os.path.join(root, p))
     for p, to in links:
         os.makedirs(os.path.dirname(os.path.join(root, p)) or root, exist_ok=True)
+        if to is None:      # a directory that has to exist (the target of a link to a directory)
+            os.makedirs(os.path.join(root, p), exist_ok=True)
+            continue
         os.symlink(to, os.path.join(root, p))
     if case.get("git"):
         import subprocess
@@ -589,11 +671,31 @@ def canon_json(root, code, rep):
     return out
 
 
+MP_LIMIT = 150      # seconds; a pool run of these small projects takes well under a second
+
+
+def _run_cli_plain(args, root):
+    code, out, exc = cli.run_cli(args, root)
+    return [code, out, None if exc is None else "%s:%s" % (type(exc).__name__, str(exc)[:100])]
+
+
 def run_lint_json(case, mp=False):
     with places.project_dir(case, "rv-rep-") as root:
-        build_tree(root, case)
+        # links that leave the project point into a directory next to it (there is one when the project has a name of its own)
+        build_tree(root, case, outside=os.path.join(os.path.dirname(root), "rv-outside") if case.get("root") else None)
         args = ["lint", "--json"] if mp else ["--no-multiprocessing", "lint", "--json"]
-        code, out, exc = cli.run_cli(args, root)
+        if mp:
+            # through the worker pool: bounded, so that a pool that never hands its results back is an observation, not a stalled check
+            res = cli.run_bounded(lambda: json.dumps(_run_cli_plain(args, root)), MP_LIMIT)
+            if res.startswith("timeout:"):
+                return "EXC:NoResult:`reuse lint --json` through the worker pool gave no result after %d s (process group killed)" % MP_LIMIT
+            if res.startswith("EXC"):
+                return res
+            code, out, exc = json.loads(res)
+            if exc is not None:
+                return "EXC:%s" % exc
+        else:
+            code, out, exc = cli.run_cli(args, root)
         if exc is not None:
             return "EXC:%s:%s" % (type(exc).__name__, str(exc)[:100])
         try:
@@ -794,6 +896,8 @@ def product_cases(tier, rng):
     # LicenseRef- look-alikes that can only be names below LICENSES/
     for n in LICREF_LIKE_NAMES:
         yield product_case("licreflike", n, "unused", rng.choice(["ID.txt", "ID", "sub/ID.txt", "ID.md"]))
+    # the entry reached through a symbolic link (to a file, to a directory), or only a dangling link
+    yield from link_product_cases(tier, rng)
 
 
 NAMES = ["a.py", "src/b c.py", "src/ü.c", "doc/read me.html", "data/x:y.txt", "src/deep/er/m.tex", "q.sql", "img/p.png",
@@ -939,6 +1043,29 @@ IGNORE_GROUPS = [
 ]
 
 
+# Directories exempt from the walk are those *called* .git, .hg, .sl, LICENSES or .reuse.  Directories whose names have one of
+# these as a proper prefix, a proper suffix or in the middle, or differ in case only, are ordinary directories:
+LOOKALIKE_DIRS = [".github", ".gitlab", ".gitea", ".git2", ".hgpatches", ".hg-old", ".slack", ".slurm", ".reuse-cache", ".reused",
+                  "LICENSES-thirdparty", "LICENSES.old", "LICENSES2", "LICENSESX",
+                  "x.git", "repo.git", "old.hg", "a.sl", "my.reuse", "OLD-LICENSES", "MYLICENSES", "_.git", "0.reuse",
+                  "x.git.d", "a.hg.b", "pre-LICENSES-post", "a.reuse.b", "x.sl.y", "..git", ".git.git", "LICENSESLICENSES",
+                  "licenses", "Licenses", ".GIT", ".Hg", ".Reuse", ".SL", "git", "hg", "reuse", "sl", "LICENSE S"]
+LOOKALIKE_SUB = ["", "", "", "workflows/", "in/ner/", "hooks/"]
+LOOKALIKE_ABOVE = ["", "", "", "src/", "docs/deep/", "lib/x y/"]
+LOOKALIKE_FILES = ["w.py", "ci.c", "notes.txt", "page.html", "q.sql"]
+# regular files (below the top level) that are called what an exempt directory is called: covered like any other file
+EXEMPT_NAMED_FILES = ["src/.hg", "lib/.sl", "docs/LICENSES", "src/deep/.reuse", "lib/.hg"]
+
+
+def lookalike_path(rng):
+    if rng.random() < 0.15:
+        return rng.choice(EXEMPT_NAMED_FILES)
+    above = rng.choice(LOOKALIKE_ABOVE)
+    if rng.random() < 0.15:
+        above = rng.choice(LOOKALIKE_DIRS) + "/"        # one inside another
+    return above + rng.choice(LOOKALIKE_DIRS) + "/" + rng.choice(LOOKALIKE_SUB) + rng.choice(LOOKALIKE_FILES)
+
+
 def compliant_case(rng, nfiles=None, glob=None):
     """compliant by construction: every file has a notice and expressions over valid, current identifiers, each
     provided as ID.<ext> (some in sub-directories, some with a .license companion), nothing else in LICENSES/."""
@@ -951,7 +1078,15 @@ def compliant_case(rng, nfiles=None, glob=None):
         names, n = NAMES + TREE_NAMES + TREE_NAMES, max(n, rng.randint(2, 7))
     files = []
     chosen = sorted(set(rng.sample(names, n)), key=names.index)
+    if rng.random() < 0.3:
+        # covered files in directories whose names merely contain the name of an exempt directory, and covered files named like one
+        for q in [lookalike_path(rng) for _ in range(rng.randint(1, 3))]:
+            if not any(q == c or q.startswith(c + "/") or c.startswith(q + "/") for c in chosen):
+                chosen.append(q)
     git = rng.random() < 0.2
+    if git:
+        # Git itself refuses to track anything below a directory called `.git` in any spelling of upper and lower case
+        chosen = [c for c in chosen if not any(part.lower() == ".git" for part in c.split("/"))]
     groups = []
     if git and rng.random() < 0.85:
         groups = rng.sample(IGNORE_GROUPS, rng.choice([1, 1, 2, 3]))
@@ -1165,6 +1300,122 @@ def defect_case(rng, kinds):
     return case
 
 
+# ----------------------------------------------------------------------------
+# licence texts reached through symbolic links (see LINK in the module docstring)
+
+FILE_LINK_KINDS = ["alias", "project", "project", "hidden", "outside", "outside", "chain"]
+DIR_LINK_KINDS = ["nested", "dotreuse", "hidden", "outside", "outside"]
+
+
+def add_lic_links(rng, case):
+    """Some of the LICENSES/ entries of `case` become symbolic links: one to three entries links to regular files (another text
+    of LICENSES/, a file elsewhere in the project, a hidden store below LICENSES/, a file outside the project, a link to a link),
+    a sub-directory — an existing one, a new one into which entries move, now and then LICENSES itself — a link to a directory
+    (a LICENSES/ directory elsewhere in the project, below .reuse/, a hidden one, one outside the project), and a dangling link
+    named like a licence text.  Which identifiers are provided does not change: a link is named by its own name."""
+    specs = []
+    texts = [n for n in case["lic"] if not n.endswith(".license")]
+    r = rng.random()
+    dir_n = None
+    if texts and r < 0.07:
+        dir_n = ""
+    elif texts and r < 0.5:
+        subs = sorted({n.split("/")[0] for n in texts if "/" in n})
+        if subs and rng.random() < 0.5:
+            dir_n = rng.choice(subs)
+        else:
+            dir_n = rng.choice(["shared", "third-party", "deep/er", "x y"])
+            if not any(n == dir_n or n.startswith(dir_n.split("/")[0] + "/") or n.split(".")[0] == dir_n for n in case["lic"]):
+                moved = set(rng.sample(texts, rng.randint(1, min(3, len(texts)))))
+                moved |= {m + ".license" for m in moved}
+                case["lic"] = [dir_n + "/" + n if n in moved else n for n in case["lic"]]
+                texts = [n for n in case["lic"] if not n.endswith(".license")]
+            else:
+                dir_n = None
+    if dir_n is not None:
+        specs.append({"n": dir_n, "k": "dir", "to": rng.choice(DIR_LINK_KINDS if dir_n else ["dotreuse", "outside", "nested"]), "abs": rng.random() < 0.3})
+    chosen = rng.sample(texts, min(len(texts), rng.choice([0, 1, 1, 2, 3]) if dir_n is not None else rng.choice([1, 1, 2, 3])))
+    for n in chosen:
+        spec = {"n": n, "k": "file", "to": rng.choice(FILE_LINK_KINDS), "abs": rng.random() < 0.25}
+        if spec["to"] == "alias":
+            others = [m for m in texts if m not in chosen]
+            if others:
+                spec["target"] = rng.choice(others)
+            else:
+                spec["to"] = "project"
+        specs.append(spec)
+    if rng.random() < 0.35:
+        # a dangling link is no licence text: whatever it is called, nothing is provided and nothing is to be reported about it
+        have = {carried(n.rsplit("/", 1)[-1])[0] for n in texts}
+        x = rng.choice([rng.choice(id_classes()["current"]), rng.choice(id_classes()["deprecated"]), "nonsense", "LicenseRef-dangling"]
+                       + sorted(used_ids(case) - have)[:2])
+        x = base(x)
+        if x not in have and "/" not in x:
+            d = rng.choice(["", "", "sub/"] + ([dir_n + "/"] if dir_n else []))
+            specs.append({"n": d + x + rng.choice([".txt", ".txt", ""]), "k": "dangling"})
+    if specs:
+        case["liclinks"] = specs
+    return case
+
+
+def leaves_project(case):
+    return any(l.get("to") == "outside" for l in case.get("liclinks", []))
+
+
+LINK_MODES = ([("file", to) for to in ("alias", "project", "hidden", "outside", "chain")]
+              + [("dir", to) for to in ("nested", "dotreuse", "hidden", "outside")]
+              + [("root", to) for to in ("nested", "dotreuse", "outside")] + [("dangling", None)])
+
+
+def link_product_case(rng, cls, x, use, mode):
+    """a cell of C06's quantifier whose LICENSES/ entry for x is reached through a symbolic link: to a file, below a
+    sub-directory that is a link, below a LICENSES that is a link, or only as a dangling link (= not provided)"""
+    kind, to = mode
+    if kind == "file":
+        prov = rng.choice(["ID.txt", "ID.txt", "ID.md", "ID", "sub/ID.txt", "ID+.txt"])
+    elif kind == "dir":
+        prov = "sub/ID.txt"
+    elif kind == "root":
+        prov = rng.choice(["ID.txt", "ID", "sub/ID.txt"])
+    else:
+        prov = "absent"
+    c = product_case(cls, x, use, prov)
+    absolute = rng.random() < 0.3
+    if kind == "file":
+        spec = {"n": c["lic"][-1], "k": "file", "to": to, "abs": absolute}
+        if to == "alias":
+            spec["target"] = c["lic"][0]        # the filler's text
+        specs = [spec]
+    elif kind == "dir":
+        specs = [{"n": rng.choice(["sub", "sub/dir"]), "k": "dir", "to": to, "abs": absolute}]
+    elif kind == "root":
+        specs = [{"n": "", "k": "dir", "to": to, "abs": absolute}]
+    else:
+        specs = [{"n": rng.choice(["", "sub/"]) + x + rng.choice([".txt", ".txt", ".md", ""]), "k": "dangling"}]
+    c["liclinks"] = specs
+    c["cell"][3] = "link:%s:%s:%s" % (kind, to, prov)
+    if to == "outside":
+        c["root"] = rng.choice(places.ROOT_NAMES[:6])
+    return c
+
+
+def link_product_cases(tier, rng):
+    cl = id_classes()
+    if tier == "thorough":
+        for c in cl:
+            for u in USES:
+                for m in LINK_MODES:
+                    yield link_product_case(rng, c, rng.choice(cl[c]), u, m)
+        return
+    for m in LINK_MODES:
+        for c, u in (("current", rng.choice(["alone", "and", "toml"])), ("current", "unused"),
+                     (rng.choice(["deprecated", "unknown", "licref", "wrongcase"]), rng.choice(["alone", "unused", "plus"]))):
+            yield link_product_case(rng, c, rng.choice(cl[c]), u, m)
+    for c in cl:
+        for u in USES:
+            yield link_product_case(rng, c, rng.choice(cl[c]), u, rng.choice(LINK_MODES))
+
+
 def dup_free(case):
     """the tool stops with an error when two LICENSES/ entries resolve to one identifier (property C16): not generated"""
     seen = set()
@@ -1199,6 +1450,10 @@ def tree_cases(tier, rng):
         name = places.choose(rng)
         if name:
             case["root"] = name
+        if case["lic"] and rng.random() < 0.3:
+            add_lic_links(rng, case)
+            if leaves_project(case) and not case.get("root"):
+                case["root"] = rng.choice(places.ROOT_NAMES[:6])
         yield case
 
 
